@@ -7,6 +7,50 @@ props = [json.loads(l) for l in open(os.path.join(HERE, "properties.jsonl"))]
 
 # id -> (level, technique, level text, level note, design ref)
 CLAIMS = {
+    "C01": ("model_checking",
+            "TLA+ instruction-set specification (Z80Core/Z80Int) + TLC trace validation of recorded real Steps",
+            "Every recorded CPU.Step is judged by TLC against StepSet of the TLA+ specification on the whole architectural "
+            "state (registers minus R, HALT, memory image, bytes sent to ports). All 7x256 decode points are driven from a "
+            "structured pre-state catalogue (wrap, overlap, flag patterns, IFF/IM) and from biased-random states.",
+            "Exhaustive over decode points, structured + random over pre-states (the ALU-shaped part is complete in C02/C03). "
+            "Trusts TLC, the transcription of the instruction set into Z80Core.tla and the recording devices.",
+            "DESIGN.md section 3 C01"),
+    "C04": ("model_checking",
+            "TLC theorems on the spec (MC_Ctl: all F x all conditional opcodes, CALL;RET, PUSH;POP) + trace validation of the same families on the real CPU",
+            "TLC checks the control-flow theorems on the specification for all 256 F / all 256 B and wrap placements; the "
+            "real CPU.Step is run for all 256 F x all 28 conditional opcodes x placements, DJNZ for all B, RST/JP (rr)/PUSH/POP "
+            "and the two-step sequences, every Step validated by TLC against the same specification.",
+            "Finite control part (F, B, opcodes) exhaustive; addresses sampled at boundaries. Trusts TLC and the spec transcription.",
+            "DESIGN.md section 3 C04"),
+    "C05": ("model_checking",
+            "TLA+ bus micro-operations + TLC trace validation of per-Step access logs recorded by Memory/IO wrappers",
+            "Recording Memory/IO devices log every access of every Step; TLC compares the multiset of reads, the multiset of "
+            "(address,value) writes and the port log with the specification's micro-operations for all decode points, taken "
+            "and untaken conditional forms, pointers at the wrap and on the instruction bytes.",
+            "Exhaustive over decode points; pre-states structured + random. Access order within a Step is not compared.",
+            "DESIGN.md section 3 C05"),
+    "C11": ("model_checking",
+            "DD/FD pair recording + MirrorOK / NoInterf relations evaluated by TLC + trace validation of both members",
+            "For all 512 DD/FD and DDCB/FDCB encodings the real CPU runs the DD form and the FD form from the exchanged state "
+            "and again with the other index register changed; TLC evaluates the mirror and non-interference relations on every "
+            "recorded pair and validates both members against the specification.",
+            "Exhaustive over encodings; pre-states structured + random. Pairs whose instruction reads its own prefix byte as data are skipped.",
+            "DESIGN.md section 3 C11"),
+    "C12": ("model_checking",
+            "fuzzed Steps under recover() recorded as traces; panic/hang events have no action in the TLA+ trace spec; returned states validated by TLC",
+            "Arbitrary byte strings, States (any IM), short memories, nil/short IO and arbitrary interrupt requests are "
+            "stepped under recover(); every returned state is validated by TLC against StepSet (unsupported opcodes: consumed / "
+            "silicon / prefix-only); a panic is an event the specification rejects.",
+            "Random exploration of an infinite input space; totality of the specification itself is checked by TLC evaluating "
+            "every decode point without an evaluation gap.",
+            "DESIGN.md section 3 C12"),
+    "C14": ("model_checking",
+            "TLA+ IncR/M1 fetch counting + TLC trace validation over all decode points x starting R values",
+            "Every decode point is stepped from starting R values covering all 256 (thorough) with I in {00,7F,80,FF}, plus "
+            "multi-Step block repeats and HALT parking; TLC checks R = IncR(R, opcode fetches), bit 7 and I unchanged, and the "
+            "LD A,R / LD A,I value and flags.",
+            "DDCB/FDCB may count 2 or 3; a Step accepting an interrupt may count 0 or 1 per fetched opcode (property text / looseness policy).",
+            "DESIGN.md section 3 C14"),
     "C02": ("model_checking",
             "TLA+ operator tables (TLC, complete domains) + exhaustive Go sweep of CPU.Step + TLC trace validation",
             "TLC tabulates every 8-bit ALU/rotate/bit operator of spec/Z80Alu.tla over its complete domain and checks "
